@@ -211,6 +211,10 @@ func (c *Ctx) Finish(recheck func(caseJSON []byte) *Fail) int {
 		fails := 0
 		if recheck != nil {
 			for i := 0; i < 5; i++ {
+				if strings.HasPrefix(v.Key, "hang") && i > 0 {
+					fails++ // a whole-system hang costs its full time-out: re-executed once
+					continue
+				}
 				if strings.HasSuffix(v.Key, ":hang") {
 					// re-executing a hanging case leaks a spinning goroutine each time: once is enough
 					if i > 0 {
